@@ -892,3 +892,36 @@ def run_conc(scn, pa, pb, chooser, max_steps=400, probe=True):
             out["probe"] = _probe(ctx)
         ctx.pool.close()
     return out
+
+
+def dfs_schedules(scn, pa, pb, bound, cap):
+    """Stateless bounded-preemption DFS over the REAL code: yields traces.  A preemption = switching away from the
+    thread that ran last while it is still enabled (the server "e" counts as a thread)."""
+    stack = [[]]
+    seen = 0
+    while stack and seen < cap:
+        prefix = stack.pop()
+        record = []
+
+        def chooser(en, n, last, prefix=prefix, record=record):
+            if n < len(prefix):
+                c = prefix[n]
+            else:
+                c = last if last in en else en[0]
+            record.append((tuple(en), c, last))
+            return c
+
+        tr = run_conc(scn, pa, pb, chooser)
+        seen += 1
+        yield tr
+        pre = 0
+        for i, (en, c, last) in enumerate(record):
+            if i >= len(prefix):
+                for alt in en:
+                    if alt == c:
+                        continue
+                    cost = pre + (1 if (last in en and alt != last) else 0)
+                    if cost <= bound:
+                        stack.append([r[1] for r in record[:i]] + [alt])
+            if last in en and c != last:
+                pre += 1
